@@ -35,6 +35,18 @@ def run_case(col, schedule, chunk, chains, kernels, needs_history, mode):
         if mode == "all":
             eng = make_engine(schedule, chunk, chains, kernels, needs_history)
             eng.sample_all_epochs()
+        elif mode == "shared_config_objects":  # `[slow] * 3`: consecutive epochs with equal settings are ONE EpochConfig object
+            eng = make_engine(schedule, chunk, chains, kernels, needs_history, share_config_objects=True)
+            eng.sample_all_epochs()
+        elif mode == "same_object_appended":
+            eng = make_engine(schedule[:1], chunk, chains, kernels, needs_history)
+            eng.sample_next_epoch()
+            prev, obj = None, None
+            for c in schedule[1:]:
+                obj = obj if c == prev else mk_cfg(*c)
+                prev = c
+                eng.append_epoch(obj)
+                eng.sample_next_epoch()
         elif mode == "incremental":
             eng = make_engine(schedule[:1], chunk, chains, kernels, needs_history)
             eng.sample_next_epoch()
@@ -83,6 +95,9 @@ def bounded(tier, seed):
         g = math.gcd(*ds)
         cases.append((sched, g, 2, 2, (True, False), "all"))
         cases.append((sched, 1, 1, 1, (False, False), "incremental"))
+    for sched in ([(0, 1, 1), (1, 4, 1), (2, 6, 1), (2, 6, 1), (2, 6, 1), (4, 4, 1)], [(0, 1, 1), (2, 4, 2), (2, 4, 2), (4, 4, 1), (4, 4, 1)]):
+        cases.append((sched, 2, 2, 2, (True, False), "shared_config_objects"))
+        cases.append((sched, 2, 1, 1, (True, False), "same_object_appended"))
     n_rand = 6 if tier == "quick" else 120
     for _ in range(n_rand):
         ts = rng.choice(seqs)
@@ -103,7 +118,7 @@ def bounded(tier, seed):
         "distinct_nontrivial": len({repr(c) for c in cases}),
         "rule": (f"BOUNDED: real Engine with recording kernels (events logged inside the kernel state, per chain) on {len(cases)} cases: fixed schedules "
                  "([BURNIN,POST,POST], [POST], [FAST,SLOW,POST], ...) plus seeded random valid schedules of <= 3 epochs after the initial one, durations = chunk x 1..3, "
-                 "thinning dividing the duration, chunk in 1..3, chains in {1,3}, kernels in {1,2}, history requirement per kernel, and three driving modes "
+                 "thinning dividing the duration, chunk in 1..3, chains in {1,3}, kernels in {1,2}, history requirement per kernel, schedules whose consecutive equal epochs share ONE configuration object (given up front and appended), and three driving modes "
                  f"(sample_all_epochs / append_epoch + sample_next_epoch one at a time / mixed); thorough adds all {len(seqs)} valid type sequences. seed={seed}."),
         "samples": [{"schedule": cases[0][0], "chunk": cases[0][1], "chains": 2, "kernels": 2, "mode": "all"}, {"schedule": cases[-1][0], "chunk": cases[-1][1], "mode": cases[-1][5]}],
         "exhaustive": False,
